@@ -13,8 +13,11 @@
    (Gen/MaskedSites.v, regenerated from /repo by translator/sites.py on every run) the result is
    shown not to depend on the heap.  An unguarded call anywhere in the tree makes
    Gen/MaskedSites.v fail to compile, hence this file.
+   Round 2 (second half of this file): every np.empty-style allocation of the tree is shown to be
+   completely stored to before it is read (Gen/AllocSites.v, write-before-read), and result caches
+   keyed on identity are shown to be exactly what the in-place-overwrite probe detects.
    What is NOT proved (left to the perturbed differential runs of harness/props/c19.py): the
-   allocator, np.empty-style allocations whose cells are all written later, the C kernels'
+   allocator, the C kernels'
    zeroing of `out`, OpenMP scheduling, and that routines leave their arguments unmodified --
    Gallina functions are deterministic and cannot mutate, so a model has nothing to say there. *)
 From Coq Require Import List Bool Arith QArith.
